@@ -133,6 +133,7 @@ func genHist(g *G, n int, out io.Writer) {
 		// near-identical documents: the first graph again with white space put INTO one of its string values, with a number respelt,
 		// with its top-level nodes in the opposite order - documents that differ, however little, are different documents
 		var nearCopies [][2]string
+		lexicalOnly := false
 		for _, d := range pool[:1] {
 			for _, v := range []string{strings.Replace(d, `"cc"`, `"c c"`, 1), strings.Replace(d, `"ddd"`, `"d\tdd"`, 1), strings.Replace(d, `"true"`, `" true"`, 1), strings.Replace(d, `:[1`, `:[10`, 1),
 				// (a blank inside a class IRI or a node id: another class, another node - every report about that node shows it)
@@ -189,7 +190,14 @@ func genHist(g *G, n int, out io.Writer) {
 		if i%6 == 1 {
 			// a profile that reports every T node, and a pool made of the lexical documents only: every report carries locations
 			h.Profile = "profile: hist lexical\nprefixes:\n  ex: " + NS + "\nviolation:\n  - v\nvalidations:\n  v:\n    targetClass: ex.T\n    message: m\n    propertyConstraints:\n      ex.zz:\n        minCount: 1\n"
-			pool, kinds = pool[3:], kinds[3:]
+			var lp, lk []string
+			for k := range pool {
+				if strings.HasPrefix(kinds[k], "lexical") {
+					lp, lk = append(lp, pool[k]), append(lk, kinds[k])
+				}
+			}
+			pool, kinds = lp, lk
+			lexicalOnly = true
 		}
 		pool = append(pool, "[]", "{\"@id\":\"http://a\",\"@type\":5}", "{ not json", "")
 		kinds = append(kinds, "empty", "jsonld-reject", "undecodable", "empty-text")
@@ -206,6 +214,23 @@ func genHist(g *G, n int, out io.Writer) {
 			j := g.n(len(pool))
 			h.Docs = append(h.Docs, pool[j])
 			h.Kinds = append(h.Kinds, kinds[j])
+		}
+		if lexicalOnly {
+			// ... and one of each kind right at the start, in a rotating order (with and without source information, one and two locations)
+			var first []int
+			for _, want := range [][]string{{"lexical-info", "lexical-noinfo", "lexical-two-locations"}, {"lexical-two-locations", "lexical-noinfo", "lexical-info"}, {"lexical-noinfo", "lexical-info", "lexical-noinfo"}}[(i/6)%3] {
+				for k := range kinds {
+					if kinds[k] == want {
+						first = append(first, k)
+						break
+					}
+				}
+			}
+			var d, kk []string
+			for _, k := range first {
+				d, kk = append(d, pool[k]), append(kk, kinds[k])
+			}
+			h.Docs, h.Kinds = append(d, h.Docs...), append(kk, h.Kinds...)
 		}
 		if len(nearCopies) > 0 && i%6 != 1 {
 			// ... one right after the other, somewhere in the history (near copy first, then the original, then the near copy again)
